@@ -8,12 +8,12 @@ use crate::model::Model;
 use crate::types::*;
 
 fn model_cols_links(ncols: usize, nlinks: usize) -> Model<'static> {
-    let mut ws = sheet_with(any_cols(ncols), vec![]);
+    let mut ws = sheet_with(any_cols_fixed_w(ncols), vec![]);
     ws.links = any_links(nlinks);
     model_from_workbook(workbook_with(vec![ws], 0))
 }
 fn model_rows_links(nrows: usize, nlinks: usize) -> Model<'static> {
-    let mut ws = sheet_with(vec![], any_rows(nrows));
+    let mut ws = sheet_with(vec![], any_rows_fixed_h(nrows));
     ws.links = any_links(nlinks);
     model_from_workbook(workbook_with(vec![ws], 0))
 }
@@ -129,8 +129,8 @@ pub fn h_c14_model_rows_insert_delete() {
 
 // ------------------------------------------------------------------------------------- C15 move
 
-fn move_rows_block(nmax: i32, dmax: i32) {
-    let mut model = model_rows_links(2, 1);
+fn move_rows_block(nrows: usize, nmax: i32, dmax: i32) {
+    let mut model = model_rows_links(nrows, 1);
     let m = any_row_index();
     let n = any_i32_in(1, nmax);
     let d = any_i32_in(-dmax, dmax);
@@ -148,5 +148,149 @@ fn move_rows_block(nmax: i32, dmax: i32) {
     }
     reach("C15.model_move_rows");
 }
-pub fn h_c15_model_move_rows() { move_rows_block(2, 2) }
-pub fn ht_c15_model_move_rows3() { move_rows_block(3, 3) }
+pub fn h_c15_model_move_rows() { move_rows_block(1, 3, 2) }
+pub fn ht_c15_model_move_rows3() { move_rows_block(2, 3, 3) }
+
+/// observable attributes of a column: (width when shown, hidden, style)
+fn col_obs(ws: &Worksheet, c: i32) -> (Result<f64, String>, Result<bool, String>, Result<Option<i32>, String>) {
+    (ws.get_actual_column_width(c), ws.is_column_hidden(c), ws.get_column_style(c))
+}
+
+fn move_columns_block(ncols: usize, nmax: i32, dmax: i32) {
+    let mut model = model_cols_links(ncols, 1);
+    let m = any_col_index();
+    let n = any_i32_in(1, nmax);
+    let d = any_i32_in(-dmax, dmax);
+    assume(d != 0);
+    let x = any_col_index();
+    let before = col_obs(&model.workbook.worksheets[0], x);
+    let l0 = link_key(&model.workbook.worksheets[0].links, "L0");
+    if model.move_columns_action(0, m, n, d).is_ok() {
+        let ws = &model.workbook.worksheets[0];
+        check("C15.model_move_columns.attrs_follow", col_obs(ws, sigma_block(x, m, n, d)) == before);
+        check("C15.model_move_columns.cols_sorted_disjoint", cols_sorted_disjoint(&ws.cols));
+        let want = match l0 { Some((r, c)) => Some((r, sigma_block(c, m, n, d))), None => None };
+        check("C15.model_move_columns.link_follows", link_key(&ws.links, "L0") == want);
+        check("C15.model_move_columns.link_count", ws.links.len() == if l0.is_some() { 1 } else { 0 });
+    }
+    reach("C15.model_move_columns");
+}
+pub fn h_c15_model_move_columns() { move_columns_block(1, 2, 2) }
+pub fn ht_c15_model_move_columns3() { move_columns_block(2, 3, 3) }
+
+// ------------------------------------------------------------------------------------- C33 links (two links, no other furniture)
+
+fn model_links2() -> Model<'static> {
+    let mut ws = sheet_with(vec![], vec![]);
+    ws.links = any_links(2);
+    model_from_workbook(workbook_with(vec![ws], 0))
+}
+fn links_snapshot(m: &Model) -> (Option<(i32, i32)>, Option<(i32, i32)>, usize) {
+    let l = &m.workbook.worksheets[0].links;
+    (link_key(l, "L0"), link_key(l, "L1"), l.len())
+}
+fn map_key(k: Option<(i32, i32)>, f: &dyn Fn(i32, i32) -> Option<(i32, i32)>) -> Option<(i32, i32)> {
+    match k { Some((r, c)) => f(r, c), None => None }
+}
+fn count2(a: Option<(i32, i32)>, b: Option<(i32, i32)>) -> usize { (a.is_some() as usize) + (b.is_some() as usize) }
+
+pub fn h_c33_links_insert_rows() {
+    let mut model = model_links2();
+    let (p, k) = (any_row_index(), any_i32_in(1, LAST_ROW));
+    let (a, b, _) = links_snapshot(&model);
+    if model.insert_rows(0, p, k).is_ok() {
+        let f = |r: i32, c: i32| Some((pi_insert(r, p, k), c));
+        let (wa, wb) = (map_key(a, &f), map_key(b, &f));
+        check("C33.links.insert_rows", links_snapshot(&model) == (wa, wb, count2(wa, wb)));
+    }
+    reach("C33.links.insert_rows");
+}
+pub fn h_c33_links_insert_columns() {
+    let mut model = model_links2();
+    let (p, k) = (any_col_index(), any_i32_in(1, LAST_COLUMN));
+    let (a, b, _) = links_snapshot(&model);
+    if model.insert_columns(0, p, k).is_ok() {
+        let f = |r: i32, c: i32| Some((r, pi_insert(c, p, k)));
+        let (wa, wb) = (map_key(a, &f), map_key(b, &f));
+        check("C33.links.insert_columns", links_snapshot(&model) == (wa, wb, count2(wa, wb)));
+    }
+    reach("C33.links.insert_columns");
+}
+pub fn h_c33_links_delete_rows() {
+    let mut model = model_links2();
+    let (p, k) = (any_row_index(), any_i32_in(1, LAST_ROW));
+    let (a, b, _) = links_snapshot(&model);
+    if model.delete_rows(0, p, k).is_ok() {
+        let f = |r: i32, c: i32| pi_delete(r, p, k).map(|r2| (r2, c));
+        let (wa, wb) = (map_key(a, &f), map_key(b, &f));
+        check("C33.links.delete_rows", links_snapshot(&model) == (wa, wb, count2(wa, wb)));
+    }
+    reach("C33.links.delete_rows");
+}
+pub fn h_c33_links_delete_columns() {
+    let mut model = model_links2();
+    let (p, k) = (any_col_index(), any_i32_in(1, LAST_COLUMN));
+    let (a, b, _) = links_snapshot(&model);
+    if model.delete_columns(0, p, k).is_ok() {
+        let f = |r: i32, c: i32| pi_delete(c, p, k).map(|c2| (r, c2));
+        let (wa, wb) = (map_key(a, &f), map_key(b, &f));
+        check("C33.links.delete_columns", links_snapshot(&model) == (wa, wb, count2(wa, wb)));
+    }
+    reach("C33.links.delete_columns");
+}
+pub fn h_c33_links_move_rows() {
+    let mut model = model_links2();
+    let (m, n, d) = (any_row_index(), any_i32_in(1, 2), any_i32_in(-2, 2));
+    assume(d != 0);
+    let (a, b, _) = links_snapshot(&model);
+    if model.move_rows_action(0, m, n, d).is_ok() {
+        let f = |r: i32, c: i32| Some((sigma_block(r, m, n, d), c));
+        let (wa, wb) = (map_key(a, &f), map_key(b, &f));
+        check("C33.links.move_rows", links_snapshot(&model) == (wa, wb, count2(wa, wb)));
+    }
+    reach("C33.links.move_rows");
+}
+pub fn h_c33_links_move_columns() {
+    let mut model = model_links2();
+    let (m, n, d) = (any_col_index(), any_i32_in(1, 2), any_i32_in(-2, 2));
+    assume(d != 0);
+    let (a, b, _) = links_snapshot(&model);
+    if model.move_columns_action(0, m, n, d).is_ok() {
+        let f = |r: i32, c: i32| Some((r, sigma_block(c, m, n, d)));
+        let (wa, wb) = (map_key(a, &f), map_key(b, &f));
+        check("C33.links.move_columns", links_snapshot(&model) == (wa, wb, count2(wa, wb)));
+    }
+    reach("C33.links.move_columns");
+}
+
+// ------------------------------------------------------------------------------------- C27 well-formedness (no probes)
+
+pub fn h_c27_model_column_edits() {
+    let mut ws = sheet_with(any_cols_fixed_w(2), vec![]);
+    let mut model = model_from_workbook(workbook_with(vec![ws], 0));
+    let (p, k) = (any_col_index(), any_i32_in(1, LAST_COLUMN));
+    let op = any_u8();
+    assume(op < 3);
+    let r = if op == 0 { model.insert_columns(0, p, k) }
+            else if op == 1 { model.delete_columns(0, p, k) }
+            else { let d = any_i32_in(-2, 2); assume(d != 0); model.move_columns_action(0, p, any_i32_in(1, 2), d) };
+    if r.is_ok() {
+        check("C27.model_column_edits.cols_sorted_disjoint", cols_sorted_disjoint(&model.workbook.worksheets[0].cols));
+    }
+    reach("C27.model_column_edits");
+}
+
+pub fn h_c27_model_row_edits() {
+    let ws = sheet_with(vec![], any_rows_fixed_h(2));
+    let mut model = model_from_workbook(workbook_with(vec![ws], 0));
+    let (p, k) = (any_row_index(), any_i32_in(1, LAST_ROW));
+    let op = any_u8();
+    assume(op < 3);
+    let r = if op == 0 { model.insert_rows(0, p, k) }
+            else if op == 1 { model.delete_rows(0, p, k) }
+            else { let d = any_i32_in(-2, 2); assume(d != 0); model.move_rows_action(0, p, any_i32_in(1, 2), d) };
+    if r.is_ok() {
+        check("C27.model_row_edits.rows_unique", rows_unique(&model.workbook.worksheets[0].rows));
+    }
+    reach("C27.model_row_edits");
+}
